@@ -15,7 +15,8 @@ RULE = ("expressions from the full-grammar generator (depth <= 3/4) into which p
         "path segment, inside a namespaced identifier, as a function or parameter name. Oracle: the harness's "
         "own re-rooting on decoded terms; identity (==) when no path is rooted at the variable; input not "
         "mutated. Non-trivial: >= 1 path rooted at the variable below the top and >= 1 other occurrence of "
-        "the name that must stay; distinct by (tree, variable).")
+        "the name that must stay; distinct by (tree, variable)."
+        " Every case is followed by its look-alike twin (field-less operator tokens swapped, integer literals turned into strings) in the same process.")
 ASSUMPTIONS = ["nested lambdas binding the same name as the stripped variable are outside the quantifier"]
 
 VARS = ["x", "v", "it", "owner", "a"]
